@@ -174,6 +174,13 @@ mircheck("C20", "Metrics count what happened", SYMEX,
          "see scenario", "wall-clock time (virtual clock); concurrent readers on real threads", "the real MetricsCollector / MessageProcessingGuard code is interpreted; Instant is the virtual clock",
          feats=("metrics",))
 
+CHECKS["C11"]["groups"][-1]["scenarios"].append(m("id_reuse", "an actor ends by one of 7 causes (incl. failed / panicking on_start), then two more actors are spawned", "ids are never reused over time; kept strong and weak handles of the ended actor keep its id"))
+CHECKS["C15"]["groups"][-1]["scenarios"].append(m("deadlock_reply_window", "the callee answers and goes on to a message queued behind the ask whose handler asks the asker back (before or after the asker collected the reply); a hook with two asks in flight at once (join!) whose later-registered ask is answered first, then a reverse ask; all schedules", "every deadlock panic is justified by a chain of UNANSWERED in-flight asks at that moment (oracle computed from the trace: ask registered at first poll, answered when the target's handler returned or the target ended); known finding KF-C15-1 is recognised by its history and reported as such"))
+CHECKS["C15"]["bounds"] = "2-3 actors, <= 3 asks in flight"
+CHECKS["C15"]["outside"] = "more than 3 actors; asks issued from spawned sub-tasks of a handler"
+CHECKS["C08"]["groups"][-1]["scenarios"].append(m("long_idle", "on_run returns Ok(true) 140 (thorough 260) times in a row without suspending, then Ok(false); with and without messages", "every scripted invocation happens (no threshold after which idle work silently stops)"))
+CHECKS["C09"]["groups"][-1]["scenarios"].append(m("slow_start", "on_start suspended twice while two clients attempt capacity+2 sends, capacity 1-2, then normal service, optionally stop()", "accepted-but-not-taken-up operations <= capacity also during start-up (a message leaves the count when its handler begins)"))
+CHECKS["C04"]["groups"][-1]["scenarios"].append(m("slow_start", "traffic arriving while on_start is suspended", "nothing is handled before on_start completed"))
 CHECKS["C16"]["groups"][-1]["scenarios"].append(m("blocking", "the C17 scenario (blocking_tell / blocking_ask with and without timeout from a plain thread: live / slow / full mailbox / never-answering / killed actor) with each call routed through Box<dyn TellHandler> / Box<dyn AskHandler> obtained by From, clone_boxed or downgrade+upgrade", "same results, timers, deadlines and dead letters as the direct calls"))
 for _pid in ("C01", "C02", "C03", "C13"):
     CHECKS[_pid]["groups"][-1]["scenarios"].append(m("abandoned", "callers that give up: ask_with_timeout (symbolic timeout <= 4 ns, one symbolic clock advance) expiring after the mailbox accepted the message; ask / tell futures dropped at EVERY possible moment (cancellation is a scheduler choice); later traffic queued behind; capacity 1-3, slow handler", "an abandoned request is still handled exactly once and in its place; a withdrawn send is never handled; nothing hangs; no dead letter without a returned error"))
@@ -226,6 +233,7 @@ _FP = {
     "retry": k("firstpoll::fp_is_retryable_iff_timeout", "6 Error variants, symbolic fields", "is_retryable <=> Timeout"),
 }
 _KTRUST = ["Kani 0.68 / CBMC 6.11 / cadical", "Rust tokio model (/verif/models/tokio)", "dead_letter::record replaced by a logging stub with the same signature (kani::stub)"]
+CHECKS["C19"]["groups"][0]["scenarios"].append(m("abandoned", "asks whose caller gives up (timeout / dropped future) and tells withdrawn while waiting for a slot", "on_tell_result exactly once per completed tell handler and never for an ask, also when nobody collects the ask's reply"))
 CHECKS["C13"]["groups"].insert(0, {"engine": "kani", "features": [], "timeout": 400, "harnesses": [_FP["tell"], _FP["ask"], _FP["tellt"]]})
 CHECKS["C10"]["groups"].insert(0, {"engine": "kani", "features": [], "timeout": 400, "harnesses": [_FP["retry"], _FP["tellt"]]})
 CHECKS["C01"]["groups"].insert(0, {"engine": "kani", "features": [], "timeout": 400, "harnesses": [_FP["tell"], _FP["stop"]]})
